@@ -92,5 +92,221 @@ theorem sortBySeq_of_sorted (c : SeqCfg) (l : List (Str × Val))
     (hsorted : List.Pairwise (fun a b => seqOf c a.2 < seqOf c b.2) l) : sortBySeq c l = l :=
   sortBySeq_inverts_perm c l l (List.Perm.refl _) hsorted
 
+/-! ### (2) fuel monotonicity; the stream decoder computes the tree fold -/
+
+theorem seqElem_text (c : SeqCfg) (S : Strconv) (fin : StreamEnd) (f : Nat) (skey : Str)
+    (na : Entries) (seq : Nat) (pend : Option (Str × Bool)) (s : Str) (rest : List Tok) :
+    seqElem c S fin (f + 1) skey na seq pend (.text s :: rest)
+      = seqElem c S fin f skey (SeqFold.onText c S na seq pend s).1
+          (SeqFold.onText c S na seq pend s).2.1 (SeqFold.onText c S na seq pend s).2.2 rest := by
+  rcases pend with _ | ⟨p, b⟩
+  · simp only [seqElem, SeqFold.onText]
+    by_cases h1 : (escDecIf c.dec (trimChars (trimSet c.dec) ([] ++ s))).isEmpty = true
+    · simp only [h1, if_true]
+    · simp only [h1, if_false, Bool.false_eq_true]
+  · simp only [seqElem, SeqFold.onText]
+    by_cases h1 : (escDecIf c.dec (trimChars (trimSet c.dec) (p ++ s))).isEmpty = true
+    · simp only [h1, if_true]
+    · cases b <;> simp only [h1, if_false, if_true, Bool.false_eq_true]
+
+theorem seqElem_mono (c : SeqCfg) (S : Strconv) (fin : StreamEnd) :
+    ∀ (f : Nat) (skey : Str) (na : Entries) (seq : Nat) (pend : Option (Str × Bool))
+      (toks : List Tok) (r : Val × List Tok),
+      seqElem c S fin f skey na seq pend toks = .ok r →
+      seqElem c S fin (f + 1) skey na seq pend toks = .ok r := by
+  intro f
+  induction f with
+  | zero => intro skey na seq pend toks r h; simp [seqElem] at h
+  | succ f ih =>
+    intro skey na seq pend toks r h
+    match toks with
+    | [] => cases fin <;> simp [seqElem] at h
+    | .stop _ _ :: rest => simpa [seqElem] using h
+    | .text s :: rest =>
+      rw [seqElem_text] at h ⊢
+      exact ih _ _ _ _ _ _ h
+    | .comment _ :: rest =>
+      simp only [seqElem] at h ⊢
+      exact ih _ _ _ _ _ _ h
+    | .procinst _ _ :: rest =>
+      simp only [seqElem] at h ⊢
+      exact ih _ _ _ _ _ _ h
+    | .directive _ :: rest =>
+      simp only [seqElem] at h ⊢
+      exact ih _ _ _ _ _ _ h
+    | .start sp name attrs :: rest =>
+      simp only [seqElem] at h ⊢
+      cases hp : seqElem c S fin f (qualName c sp name) (seqInitNa c S attrs) 0 none rest with
+      | ok p =>
+        obtain ⟨v, rest'⟩ := p
+        simp only [hp] at h
+        rw [ih _ _ _ _ _ _ hp]
+        exact ih _ _ _ _ _ _ h
+      | eof => simp [hp] at h
+      | «syntax» => simp [hp] at h
+      | err k => simp [hp] at h
+      | panic s => simp [hp] at h
+
+theorem seqElem_mono_le (c : SeqCfg) (S : Strconv) (fin : StreamEnd) {f g : Nat} (hfg : f ≤ g)
+    {skey : Str} {na : Entries} {seq : Nat} {pend : Option (Str × Bool)}
+    {toks : List Tok} {r : Val × List Tok}
+    (h : seqElem c S fin f skey na seq pend toks = .ok r) :
+    seqElem c S fin g skey na seq pend toks = .ok r := by
+  induction hfg with
+  | refl => exact h
+  | step _ ih => exact seqElem_mono c S fin _ _ _ _ _ _ _ ih
+
+theorem seqTop_mono (c : SeqCfg) (S : Strconv) (fin : StreamEnd) :
+    ∀ (f : Nat) (toks : List Tok) (r : SeqTop),
+      seqTop c S fin f toks = .ok r → seqTop c S fin (f + 1) toks = .ok r := by
+  intro f
+  induction f with
+  | zero => intro toks r h; simp [seqTop] at h
+  | succ f ih =>
+    intro toks r h
+    match toks with
+    | [] => cases fin <;> simp [seqTop] at h
+    | .stop _ _ :: rest => simp [seqTop] at h
+    | .text s :: rest => simp only [seqTop] at h ⊢; exact ih _ _ h
+    | .comment _ :: rest => simpa only [seqTop] using h
+    | .procinst _ _ :: rest => simpa only [seqTop] using h
+    | .directive _ :: rest => simpa only [seqTop] using h
+    | .start sp name attrs :: rest =>
+      simp only [seqTop] at h ⊢
+      cases hp : seqElem c S fin f (qualName c sp name) (seqInitNa c S attrs) 0 none rest with
+      | ok p =>
+        obtain ⟨v, rest'⟩ := p
+        simp only [hp] at h
+        rw [seqElem_mono c S fin _ _ _ _ _ _ _ hp]
+        exact h
+      | eof => simp [hp] at h
+      | «syntax» => simp [hp] at h
+      | err k => simp [hp] at h
+      | panic s => simp [hp] at h
+
+theorem seqTop_mono_le (c : SeqCfg) (S : Strconv) (fin : StreamEnd) {f g : Nat} (hfg : f ≤ g)
+    {toks : List Tok} {r : SeqTop} (h : seqTop c S fin f toks = .ok r) :
+    seqTop c S fin g toks = .ok r := by
+  induction hfg with
+  | refl => exact h
+  | step _ ih => exact seqTop_mono c S fin _ _ _ ih
+
+mutual
+theorem seq_parse_tree (c : SeqCfg) (S : Strconv) (fin : StreamEnd) : ∀ (t : Node),
+    match t with
+    | .elem sp name attrs ks => ∀ (rest : List Tok) (f : Nat), (flattenKids ks).length + 1 ≤ f →
+        seqElem c S fin f (qualName c sp name) (seqInitNa c S attrs) 0 none
+          (flattenKids ks ++ Tok.stop sp name :: rest) = .ok (SeqFold.value c S t, rest)
+    | _ => True
+  | .elem sp name attrs ks => by
+      intro rest f hf
+      have := seq_parse_kids c S fin ks sp name (seqInitNa c S attrs) 0 none rest f hf
+      simpa [SeqFold.value] using this
+  | .text _ => trivial
+  | .comment _ => trivial
+  | .procinst _ _ => trivial
+  | .directive _ => trivial
+theorem seq_parse_kids (c : SeqCfg) (S : Strconv) (fin : StreamEnd) : ∀ (ks : List Node)
+    (sp nm : Str) (na : Entries) (seq : Nat) (pend : Option (Str × Bool))
+    (rest : List Tok) (f : Nat), (flattenKids ks).length + 1 ≤ f →
+    seqElem c S fin f (qualName c sp nm) na seq pend (flattenKids ks ++ Tok.stop sp nm :: rest) =
+      .ok (SeqFold.finish (SeqFold.kids' c S (na, seq, pend) ks).1, rest)
+  | [], sp, nm, na, seq, pend, rest, f, hf => by
+      obtain ⟨f, rfl⟩ : ∃ g, f = g + 1 := ⟨f - 1, by simp [flattenKids] at hf; omega⟩
+      simp [flattenKids, seqElem, SeqFold.kids', SeqFold.finish]
+  | .text s :: ks, sp, nm, na, seq, pend, rest, f, hf => by
+      simp only [flattenKids, flatten, List.length_append, List.length_cons, List.length_nil] at hf
+      obtain ⟨f, rfl⟩ : ∃ g, f = g + 1 := ⟨f - 1, by omega⟩
+      have ih := seq_parse_kids c S fin ks sp nm
+        (SeqFold.onText c S na seq pend s).1 (SeqFold.onText c S na seq pend s).2.1
+        (SeqFold.onText c S na seq pend s).2.2 rest f (by omega)
+      simp only [flattenKids, flatten, List.cons_append, List.nil_append, SeqFold.kids']
+      rw [seqElem_text]
+      exact ih
+  | .comment s :: ks, sp, nm, na, seq, pend, rest, f, hf => by
+      simp only [flattenKids, flatten, List.length_append, List.length_cons, List.length_nil] at hf
+      obtain ⟨f, rfl⟩ : ∃ g, f = g + 1 := ⟨f - 1, by omega⟩
+      have ih := seq_parse_kids c S fin ks sp nm
+        (insert c.commentK (.map [(c.textK, .str s), (c.seqK, seqNum seq)]) na) (seq + 1) none
+        rest f (by omega)
+      simp only [flattenKids, flatten, List.cons_append, List.nil_append, seqElem, SeqFold.kids']
+      exact ih
+  | .procinst a b :: ks, sp, nm, na, seq, pend, rest, f, hf => by
+      simp only [flattenKids, flatten, List.length_append, List.length_cons, List.length_nil] at hf
+      obtain ⟨f, rfl⟩ : ∃ g, f = g + 1 := ⟨f - 1, by omega⟩
+      have ih := seq_parse_kids c S fin ks sp nm
+        (insert c.procinstK (.map [(c.targetK, .str a), (c.instK, .str b), (c.seqK, seqNum seq)]) na)
+        (seq + 1) none rest f (by omega)
+      simp only [flattenKids, flatten, List.cons_append, List.nil_append, seqElem, SeqFold.kids']
+      exact ih
+  | .directive s :: ks, sp, nm, na, seq, pend, rest, f, hf => by
+      simp only [flattenKids, flatten, List.length_append, List.length_cons, List.length_nil] at hf
+      obtain ⟨f, rfl⟩ : ∃ g, f = g + 1 := ⟨f - 1, by omega⟩
+      have ih := seq_parse_kids c S fin ks sp nm
+        (insert c.directiveK (.map [(c.textK, .str s), (c.seqK, seqNum seq)]) na) (seq + 1) none
+        rest f (by omega)
+      simp only [flattenKids, flatten, List.cons_append, List.nil_append, seqElem, SeqFold.kids']
+      exact ih
+  | .elem sp' name attrs ks' :: ks, sp, nm, na, seq, pend, rest, f, hf => by
+      simp only [flattenKids, flatten, List.length_append, List.length_cons, List.length_nil] at hf
+      obtain ⟨f, rfl⟩ : ∃ g, f = g + 1 := ⟨f - 1, by omega⟩
+      have h1 := seq_parse_tree c S fin (.elem sp' name attrs ks')
+      simp only at h1
+      have h1' := h1 (flattenKids ks ++ Tok.stop sp nm :: rest) f (by omega)
+      have h2 := seq_parse_kids c S fin ks sp nm
+        (addChild na (qualName c sp' name)
+          (seqChild c seq (SeqFold.value c S (.elem sp' name attrs ks'))))
+        (seq + 1) none rest f (by omega)
+      simp only [flattenKids, flatten, List.cons_append, List.nil_append, List.append_assoc, seqElem,
+        SeqFold.kids']
+      rw [h1']
+      exact h2
+end
+
+/-- the first call on the tokens of an element: explicit fuel bound -/
+theorem seqTop_tree (c : SeqCfg) (S : Strconv) (fin : StreamEnd)
+    (sp name : Str) (attrs : List Attr) (kids : List Node) (rest : List Tok) (f : Nat)
+    (hf : (flattenKids kids).length + 2 ≤ f) :
+    seqTop c S fin f (flatten (.elem sp name attrs kids) ++ rest)
+      = .ok (.doc (SeqFold.doc c S (.elem sp name attrs kids))) := by
+  obtain ⟨f, rfl⟩ : ∃ g, f = g + 1 := ⟨f - 1, by omega⟩
+  have h := seq_parse_tree c S fin (.elem sp name attrs kids)
+  simp only at h
+  have h' := h rest f (by omega)
+  simp only [flatten, List.cons_append, List.append_assoc, List.nil_append, seqTop, h', SeqFold.doc]
+
+def isText : Tok → Bool
+  | .text _ => true
+  | _ => false
+
+/-- leading character data (BOM, white space) costs one unit of fuel per token -/
+theorem seqTop_skip (c : SeqCfg) (S : Strconv) (fin : StreamEnd) :
+    ∀ (pre : List Tok), (∀ t ∈ pre, isText t = true) → ∀ (f : Nat) (toks : List Tok),
+      seqTop c S fin (pre.length + f) (pre ++ toks) = seqTop c S fin f toks
+  | [], _, f, toks => by simp
+  | t :: pre, h, f, toks => by
+      have ih := seqTop_skip c S fin pre (fun t ht => h t (List.mem_cons_of_mem _ ht)) f toks
+      have ht := h t (List.mem_cons_self ..)
+      have e : (t :: pre).length + f = (pre.length + f) + 1 := by simp; omega
+      rw [e]
+      cases t with
+      | text _ => simpa only [List.cons_append, seqTop] using ih
+      | start _ _ _ => simp [isText] at ht
+      | stop _ _ => simp [isText] at ht
+      | comment _ => simp [isText] at ht
+      | procinst _ _ => simp [isText] at ht
+      | directive _ => simp [isText] at ht
+
+theorem newMapXmlSeq_tree (c : SeqCfg) (S : Strconv) (fin : StreamEnd) (pre post : List Tok)
+    (hpre : ∀ t ∈ pre, isText t = true) (sp name : Str) (attrs : List Attr) (kids : List Node) :
+    newMapXmlSeq c S (pre ++ flatten (.elem sp name attrs kids) ++ post) fin
+      = .ok (.doc (SeqFold.doc c S (.elem sp name attrs kids))) := by
+  have e : (pre ++ flatten (.elem sp name attrs kids) ++ post).length + 1
+      = pre.length + ((flatten (.elem sp name attrs kids)).length + post.length + 1) := by
+    simp only [List.length_append]; omega
+  unfold newMapXmlSeq
+  rw [e, List.append_assoc, seqTop_skip c S fin pre hpre,
+    seqTop_tree c S fin sp name attrs kids post _ (by rw [length_flatten_elem]; omega)]
+
 end SeqL
 end Mxj
